@@ -52,6 +52,8 @@ type Case struct {
 
 	// runfiles: the soft limit on open file descriptors during the call (0 = leave it alone); Rounds repeats the call
 	FdLimit int `json:"fd_limit,omitempty"`
+	// runfiles: search (and with a replace command: rename by) the file NAMES instead of the contents
+	ProcessFilenames bool `json:"process_filenames,omitempty"`
 }
 
 // Call is one API call inside a history or a concurrent round.
